@@ -1,5 +1,6 @@
 mod codes;
 mod hdr;
+mod name;
 mod util;
 
 #[global_allocator]
@@ -11,6 +12,7 @@ fn main() {
     match a.topic.as_str() {
         "hdr" => hdr::run(&a),
         "codes" => codes::run(&a),
+        "name" => name::run(&a),
         t => {
             eprintln!("unknown topic {t}");
             std::process::exit(2);
